@@ -700,6 +700,14 @@ type zzC06Query struct {
 	qt string
 }
 
+func zzC06QueryPairs(qs []zzC06Query) (ps [][]any) {
+	for _, q := range qs {
+		ps = append(ps, []any{q.h, q.qt})
+	}
+
+	return ps
+}
+
 // TestZZVerifC06Pipeline is direction A at the pipeline level.
 func TestZZVerifC06Pipeline(t *testing.T) {
 	w := zzNewWriter(t, "VERIF_OUT")
@@ -716,7 +724,7 @@ func TestZZVerifC06Pipeline(t *testing.T) {
 
 	var hdr *zzC06Header
 	var qs []zzC06Query
-	n, evals, bad, hangs, flaky, setupErrs, orders := 0, 0, 0, 0, 0, 0, 0
+	n, evals, bad, hangs, flaky, slow, setupErrs, orders := 0, 0, 0, 0, 0, 0, 0, 0
 	classes := map[string]int{}
 	zzReadNDJSON(t, "VERIF_IN", func(line []byte) {
 		raw := &zzC06RawVec{}
@@ -791,6 +799,9 @@ func TestZZVerifC06Pipeline(t *testing.T) {
 				rws[i] = conc.rewrite(&tab[j])
 			}
 
+			// The table the live server had before, for rehearsing the
+			// transition when a disagreement has to be reproduced.
+			prev := append([]zzC06RW{}, z.cur...)
 			if err = z.setTable(rws); err != nil {
 				setupErrs++
 				w.put(map[string]any{"kind": "setup", "err": err.Error()})
@@ -824,10 +835,12 @@ func TestZZVerifC06Pipeline(t *testing.T) {
 					continue
 				}
 
-				// Reproduce: same table set again, the query alone, long bound.
+				// Reproduce: the previous table is set afresh, all queries are
+				// asked, the same transition is made again, then this query
+				// alone with a long bound.
 				rec := map[string]any{
 					"tab": tab, "order": order, "table": rws, "h": q.h, "qt": q.qt, "query": name, "cased": cased,
-					"want": want,
+					"want": want, "prev_table": prev, "qs": zzC06QueryPairs(qs),
 				}
 				exp := []zzC06Obs{}
 				for i := range want {
@@ -836,7 +849,15 @@ func TestZZVerifC06Pipeline(t *testing.T) {
 
 				rec["expected"] = exp
 				if ok {
-					if err = z.replaceTable(rws); err != nil {
+					if err = z.replaceTable(prev); err == nil {
+						for _, x := range qs {
+							_, _ = z.query(zzC06Name(x.h), zzC06QTypes[x.qt], 3*time.Second)
+						}
+
+						err = z.setTable(rws)
+					}
+
+					if err != nil {
 						setupErrs++
 
 						return
@@ -849,6 +870,13 @@ func TestZZVerifC06Pipeline(t *testing.T) {
 					hangs++
 					rec["kind"], rec["got"] = "hang", got2
 				case zzC06Admissible(want, q.h, q.qt, &got2):
+					if !ok {
+						// Only slow the first time.
+						slow++
+
+						continue
+					}
+
 					flaky++
 					rec["kind"], rec["got"], rec["first"] = "flaky", got2, got
 				default:
@@ -875,7 +903,8 @@ func TestZZVerifC06Pipeline(t *testing.T) {
 
 	w.put(map[string]any{
 		"kind": "summary", "vectors": n, "orderings": orders, "evals": evals, "bad": bad, "hangs": hangs,
-		"flaky": flaky, "setup_errors": setupErrs, "classes": classes, "tables_reached_by_update": z.updates,
+		"flaky": flaky, "slow": slow, "setup_errors": setupErrs, "classes": classes,
+		"tables_reached_by_update": z.updates,
 	})
 }
 
@@ -1079,7 +1108,12 @@ type zzC06ProbeIn struct {
 	QT     string       `json:"qt"`
 	Query  string       `json:"query"`
 	Want   []zzC06Out   `json:"want"`
-	Expect []struct {
+	// PrevTable, if any, is the concrete table the server had before: it is
+	// set first, QS are asked, and Tab is reached from it the way the replay
+	// does (update in place where possible).
+	PrevTable []zzC06RW           `json:"prev_table"`
+	QS        [][]json.RawMessage `json:"qs"`
+	Expect    []struct {
 		Ask    [][]json.RawMessage `json:"ask"`
 		CNAME  []string            `json:"cname"`
 		IPs    []string            `json:"ips"`
@@ -1148,6 +1182,20 @@ func TestZZVerifC06PipeProbe(t *testing.T) {
 		rws := make([]zzC06RW, len(in.Tab))
 		for j := range in.Tab {
 			rws[j] = conc.rewrite(&in.Tab[j])
+		}
+
+		if in.PrevTable != nil {
+			if err := z.replaceTable(in.PrevTable); err != nil {
+				t.Fatalf("setting previous table: %v", err)
+			}
+
+			for _, p := range in.QS {
+				var h []string
+				var qt string
+				if len(p) == 2 && json.Unmarshal(p[0], &h) == nil && json.Unmarshal(p[1], &qt) == nil {
+					_, _ = z.query(zzC06Name(h), zzC06QTypes[qt], 3*time.Second)
+				}
+			}
 		}
 
 		if err := z.setTable(rws); err != nil {
